@@ -51,11 +51,24 @@ def _env():
 _ENV = None
 
 
-def check_ir(ir, renderings, rec=None):
+# malformed selectors whose rejection happens at different depths of the compiler (inside call
+# parentheses, inside a nested call, at top level, in the lexer): rejecting one must not change
+# what later selectors mean
+POISONS = ["inner(a b)", "outer(n, inner(a):zzz)", "outer(n, inner(a) > )", "f(a", "f(a,,b)", "f(!)", "f(g(!!)) >",
+           "f(x as) > y", "{x}", "f(a=) > b", "f(g(h(1 2)))", "f > g(a b) > c"]
+
+
+def check_ir(ir, renderings, rec=None, poison=None):
     """renderings: list of (choices, ws_choices).  Raises PropertyViolation."""
     global _ENV
     from ptera import selector as S
 
+    if poison is not None:
+        try:
+            S.parse(poison)
+        except BaseException as e:  # noqa
+            if isinstance(e, (KeyboardInterrupt, SystemExit)):
+                raise
     canon = G.canonical(ir)
     expected = G.d_call(ir)
     try:
@@ -143,8 +156,8 @@ def _fnnames(c):
 # ---------------------------------------------------------------------------------------
 
 
-def _payload(ir, renderings):
-    return {"ir": repr(ir), "renderings": [[list(a), list(b)] for a, b in renderings]}
+def _payload(ir, renderings, poison=None):
+    return {"ir": repr(ir), "renderings": [[list(a), list(b)] for a, b in renderings], "poison": poison}
 
 
 def _ir_from_repr(s):
@@ -155,7 +168,7 @@ def replay(payload):
     ir = _ir_from_repr(payload["ir"])
     rend = [(a, b) for a, b in payload["renderings"]]
     try:
-        check_ir(ir, rend)
+        check_ir(ir, rend, poison=payload.get("poison"))
     except PropertyViolation as v:
         return [{"clause": v.clause, "detail": v.detail}]
     return []
@@ -222,10 +235,11 @@ def shard(cfg):
                 complete = False
                 continue
             rend = _systematic_renderings(ir)
+            poison = POISONS[k % len(POISONS)] if k % 5 == 0 else None
             try:
-                check_ir(ir, rend, rec)
+                check_ir(ir, rend, rec, poison=poison)
             except PropertyViolation as v:
-                out_viol.append(violation_record(PROPERTY, v, _payload(ir, rend)))
+                out_viol.append(violation_record(PROPERTY, v, _payload(ir, rend, poison)))
                 break
         res = rec.result()
         res["violations"] = out_viol
@@ -235,19 +249,20 @@ def shard(cfg):
     from hypothesis import strategies as st
 
     ir_s, ch_s = G.strategies()
-    strat = st.tuples(ir_s, st.lists(st.tuples(ch_s, ch_s), min_size=2, max_size=5))
+    strat = st.tuples(ir_s, st.lists(st.tuples(ch_s, ch_s), min_size=2, max_size=5),
+                      st.one_of(st.none(), st.none(), st.sampled_from(POISONS)))
 
     def body(case):
-        ir, rend = case
-        check_ir(ir, rend, rec)
+        ir, rend, poison = case
+        check_ir(ir, rend, rec, poison=poison)
 
     n, v, herr = hyp_search(
         strat, body, seed=cfg["seed"] * 1000 + cfg["shard"], max_examples=cfg["examples"]
     )
     res = rec.result()
     if v is not None:
-        ir, rend = v.case
-        res["violations"] = [violation_record(PROPERTY, v, _payload(ir, rend))]
+        ir, rend, poison = v.case
+        res["violations"] = [violation_record(PROPERTY, v, _payload(ir, rend, poison))]
     if herr:
         res["harness_errors"] = [herr]
     return res
